@@ -49,8 +49,8 @@ def table : List Row := [
   ⟨"OutputSilfTable", 8, "cpassLB + cpassSub", .guard 128, "part of the pass count"⟩,
   ⟨"OutputSilfTable", 8, "ipassBidi", .guard 255, "index of a pass, or 0xFF for none"⟩,
   ⟨"OutputSilfTable", 8, "nFlags", .bits 8, "flag bits"⟩,
-  ⟨"OutputSilfTable", 8, "m_prndr->PreXlbContext()", .guard 64, "items of one rule before #: at most kMaxSlotsPerRule (error 3106)"⟩,
-  ⟨"OutputSilfTable", 8, "m_prndr->PostXlbContext()", .guard 64, "items of one rule after #: at most kMaxSlotsPerRule"⟩,
+  ⟨"OutputSilfTable", 8, "m_prndr->PreXlbContext()", .guard 255, "product of rule lengths over the earlier passes, cut off at kInfiniteXlbContext = 255 in CalculateContextOffsets (family cross_line_boundary_context)"⟩,
+  ⟨"OutputSilfTable", 8, "m_prndr->PostXlbContext()", .guard 255, "as PreXlbContext: cut off at kInfiniteXlbContext = 255"⟩,
   ⟨"OutputSilfTable", 8, "psym->InternalID()", .guard 255, "ids of the built-in glyph attributes, assigned first (AssignInternalGlyphAttrIDs); the justification ids: error 4152 (family justify_attr_ids_after_components)"⟩,
   ⟨"OutputSilfTable", 8, "psym ? psym->InternalID() : -1", .guard 255, "justification attribute id (error 4152) or 0xFF"⟩,
   ⟨"OutputSilfTable", 16, "m_cpsymComponents", .guard 16383, "error 4124 / kMaxComponents"⟩,
